@@ -13,10 +13,13 @@ from pathlib import Path
 
 VERIF = Path(__file__).resolve().parent.parent
 REPO = Path(os.environ.get("VERIF_REPO", "/repo"))
-BUILD = VERIF / "_build"
-COQ = VERIF / "coq"
+# VERIF_WORKROOT (tools_seed.sh only): an isolated copy of coq/ and _build/ so that several trees
+# (VERIF_REPO=...) can be checked concurrently without touching /verif's own build or evidence.
+WORKROOT = Path(os.environ.get("VERIF_WORKROOT", str(VERIF)))
+BUILD = WORKROOT / "_build"
+COQ = WORKROOT / "coq"
 GEN = COQ / "theories" / "Gen"
-EVID = VERIF / "evidence"
+EVID = WORKROOT / "evidence"
 REPLAY = EVID / "replay"
 GUARD = "PYMYSENSORS_VERIF"
 
